@@ -214,10 +214,10 @@ def work_round(job):
 
 
 def models(tier):
-    fams = ['linmix', 'canon', 'uenc', 'sharing', 'fracint', 'bounds', 'dvars'] if tier == 'quick' else None
+    fams = ['linmix', 'canon', 'uenc', 'sharing', 'fracint', 'bounds', 'dvars', 'compl'] if tier == 'quick' else None
     out = []
     for i, (fam, name, m) in enumerate(flatgen.all_models('quick', fams)):
-        if fam in ('alldiffcont', 'sos', 'compl', 'cones', 'pl'): continue
+        if fam in ('alldiffcont', 'sos', 'cones', 'pl', 'unbounded', 'alg3', 'log3', 'affprod'): continue
         if fam == 'bounds' and name.startswith('dom5') and 'alldiff' in name: continue   # dom5 makes the third alldiff argument continuous (= alldiffcont)     # alldiff over non-integer expressions is refused by the converter;
         out.append((fam, name, m))                               # SOS/complementarity: auxiliaries not functionally determined
     sh = [(f, n, m) for (f, n, m) in flatgen.all_models('quick', ['shapes'])]
